@@ -1,3 +1,197 @@
+/-
+C09 - property theorems: cumulative, difference and arg-extremum operations keep the axis
+bookkeeping right.
+-/
 import DimModel.Lib.Missing
 namespace DimModel
+open Lib
+
+/-! ### list helpers -/
+
+private theorem getD_set_self {β : Type} (l : List β) (i : Nat) (x d : β) (h : i < l.length) :
+    (l.set i x).getD i d = x := by
+  rw [List.getD_eq_getElem?_getD, List.getElem?_set_self h]; rfl
+
+private theorem map_getD_succ_range (L : List Label) :
+    ((List.range (L.length - 1)).map (· + 1)).map (fun p => L.getD p Label.none) = L.drop 1 := by
+  apply List.ext_getElem
+  · simp
+  · intro i h1 h2
+    simp only [List.length_map, List.length_range] at h1
+    simp only [List.getElem_map, List.getElem_range, List.getElem_drop]
+    rw [List.getD_eq_getElem?_getD, List.getElem?_eq_getElem (by omega)]
+    simp [Nat.add_comm]
+
+private theorem map_getD_range (L : List Label) :
+    (List.range (L.length - 1)).map (fun p => L.getD p Label.none) = L.dropLast := by
+  apply List.ext_getElem
+  · simp
+  · intro i h1 h2
+    simp only [List.length_map, List.length_range] at h1
+    simp only [List.getElem_map, List.getElem_range, List.getElem_dropLast]
+    rw [List.getD_eq_getElem?_getD, List.getElem?_eq_getElem (by omega)]
+    rfl
+
+/-- cumulative transforms return all axes unchanged, and the metadata -/
+theorem cum_axes_unchanged {α : Type} (scan : List α → α) (a o r : DimArray α) (ax : AxisArg) (pos : Nat)
+    (hd : dealWithAxis a ax = .ok (o, some pos)) (h : cumAxis scan a ax = .ok (.inr r)) :
+    r.axes = o.axes ∧ r.attrs = o.attrs ∧ r.vals.shape = o.vals.shape := by
+  unfold cumAxis at h
+  rw [hd] at h
+  simp only [bind, Except.bind, pure, Except.pure] at h
+  injection h with h
+  injection h with h
+  subst h
+  exact ⟨rfl, rfl, rfl⟩
+
+/-- cell `k` along the axis is the scan of the prefix of length `k+1` of the fibre through it -/
+theorem cum_prefix {α : Type} (scan : List α → α) (a o r : DimArray α) (ax : AxisArg) (pos : Nat)
+    (hd : dealWithAxis a ax = .ok (o, some pos)) (h : cumAxis scan a ax = .ok (.inr r)) (j : List Nat) :
+    r.vals.get j = scan ((fibre o pos (j.eraseIdx pos)).take (j.getD pos 0 + 1)) := by
+  unfold cumAxis at h
+  rw [hd] at h
+  simp only [bind, Except.bind, pure, Except.pure] at h
+  injection h with h
+  injection h with h
+  subst h
+  rfl
+
+/-- backward differences drop the first label of the differenced axis -/
+theorem diff1_backward_labels {α : Type} (sub : α → α → α) (nan : α) (o r : DimArray α) (pos : Nat)
+    (hpos : pos < o.axes.length) (hplain : (o.axes.getD pos default).members = [])
+    (hsz : o.vals.shape.getD pos 0 = (o.axes.getD pos default).labels.length)
+    (h : diff1 sub nan o pos .backward false = .ok r) :
+    (r.axes.getD pos default).labels = (o.axes.getD pos default).labels.drop 1 := by
+  unfold diff1 at h
+  simp only [bind, Except.bind, pure, Except.pure] at h
+  injection h with h
+  subst h
+  simp only [getD_set_self _ _ _ _ hpos, axisSelect, hsz]
+  exact map_getD_succ_range _
+
+/-- forward differences drop the last label -/
+theorem diff1_forward_labels {α : Type} (sub : α → α → α) (nan : α) (o r : DimArray α) (pos : Nat)
+    (hpos : pos < o.axes.length) (hplain : (o.axes.getD pos default).members = [])
+    (hsz : o.vals.shape.getD pos 0 = (o.axes.getD pos default).labels.length)
+    (h : diff1 sub nan o pos .forward false = .ok r) :
+    (r.axes.getD pos default).labels = (o.axes.getD pos default).labels.dropLast := by
+  unfold diff1 at h
+  simp only [bind, Except.bind, pure, Except.pure] at h
+  injection h with h
+  subst h
+  simp only [getD_set_self _ _ _ _ hpos, axisSelect, hsz]
+  exact map_getD_range _
+
+/-- centered differences take successive midpoints of the (numeric) labels -/
+theorem diff1_centered_labels {α : Type} (sub : α → α → α) (nan : α) (o r : DimArray α) (pos : Nat)
+    (hpos : pos < o.axes.length) (h : diff1 sub nan o pos .centered false = .ok r) :
+    midLabels (o.axes.getD pos default).labels = some (r.axes.getD pos default).labels := by
+  unfold diff1 at h
+  simp only [bind, Except.bind, pure, Except.pure] at h
+  split at h
+  · rename_i ls hls
+    injection h with h
+    subst h
+    simp only [getD_set_self _ _ _ _ hpos]
+    exact hls
+  · cases h
+
+/-- with keepaxis the original labels are kept -/
+theorem diff1_keepaxis_labels {α : Type} (sub : α → α → α) (nan : α) (o r : DimArray α) (pos : Nat) (s : Scheme)
+    (hpos : pos < o.axes.length) (h : diff1 sub nan o pos s true = .ok r) :
+    (r.axes.getD pos default).labels = (o.axes.getD pos default).labels := by
+  unfold diff1 at h
+  simp only [bind, Except.bind, pure, Except.pure] at h
+  cases s
+  · simp only at h
+    split at h
+    · cases h
+    · injection h with h
+      subst h
+      simp only [getD_set_self _ _ _ _ hpos]
+  · simp only at h
+    split at h
+    · cases h
+    · injection h with h
+      subst h
+      simp only [getD_set_self _ _ _ _ hpos]
+  · cases h
+
+/-- without keepaxis the values are the first differences of each fibre: out[k] = a[k+1] - a[k] -/
+theorem diff1_values {α : Type} (sub : α → α → α) (nan : α) (o r : DimArray α) (pos : Nat) (s : Scheme)
+    (h : diff1 sub nan o pos s false = .ok r) (j : List Nat) :
+    r.vals.get j = sub (o.vals.get (j.set pos (j.getD pos 0 + 1))) (o.vals.get j) := by
+  unfold diff1 at h
+  simp only [bind, Except.bind, pure, Except.pure] at h
+  cases s
+  · simp only at h
+    injection h with h
+    subst h
+    rfl
+  · simp only at h
+    injection h with h
+    subst h
+    rfl
+  · simp only at h
+    split at h
+    · injection h with h
+      subst h
+      rfl
+    · cases h
+
+/-- with keepaxis the differences are padded with NaN on the matching side -/
+theorem diff1_keepaxis_pad {α : Type} (sub : α → α → α) (nan : α) (o r : DimArray α) (pos : Nat)
+    (h : diff1 sub nan o pos .backward true = .ok r) (j : List Nat) (hj : j.getD pos 0 = 0) :
+    r.vals.get j = nan := by
+  unfold diff1 at h
+  simp only [bind, Except.bind, pure, Except.pure] at h
+  split at h
+  · cases h
+  · injection h with h
+    subst h
+    simp only [hj, beq_self_eq_true, if_true]
+
+/-- all other axes and the metadata are untouched by diff -/
+theorem diff1_other_axes {α : Type} (sub : α → α → α) (nan : α) (o r : DimArray α) (pos : Nat) (s : Scheme) (k : Bool)
+    (h : diff1 sub nan o pos s k = .ok r) (i : Nat) (hi : i ≠ pos) :
+    r.axes[i]? = o.axes[i]? ∧ r.attrs = o.attrs := by
+  unfold diff1 at h
+  simp only [bind, Except.bind, pure, Except.pure] at h
+  have key : ∀ (x : Axis) v, r = { axes := o.axes.set pos x, vals := v, vkind := o.vkind, attrs := o.attrs } →
+      r.axes[i]? = o.axes[i]? ∧ r.attrs = o.attrs := by
+    intro x v hr
+    subst hr
+    exact ⟨List.getElem?_set_ne (Ne.symm hi), rfl⟩
+  cases s <;> cases k <;> simp only at h
+  · injection h with h; exact key _ _ h.symm
+  · split at h
+    · cases h
+    · injection h with h; exact key _ _ h.symm
+  · injection h with h; exact key _ _ h.symm
+  · split at h
+    · cases h
+    · injection h with h; exact key _ _ h.symm
+  · split at h
+    · injection h with h; exact key _ _ h.symm
+    · cases h
+  · cases h
+
+/-- arg-extrema return labels: every result cell is the label picked on the fibre through it, among
+the labels of the reduced axis; the remaining axes are kept in order -/
+theorem arg_labels {α : Type} (pick : List α → List Label → α) (a : DimArray α) (k : DimKey) (pos : Nat) (r : DimArray α)
+    (hpos : dealWithAxis a (.one k) = .ok (a, some pos)) (hrank : a.ndim ≠ 1)
+    (hplain : (a.axes.getD pos default).members = [])
+    (h : argAxis pick a (.one k) = .ok (.inr r)) :
+    r.axes = a.axes.eraseIdx pos ∧
+    ∀ j, r.vals.get j = pick (fibre a pos j) (a.axes.getD pos default).labels := by
+  unfold argAxis at h
+  rw [hpos] at h
+  simp only [bind, Except.bind, pure, Except.pure] at h
+  have hr : (a.ndim == 1) = false := by simpa using hrank
+  simp only [hr, hplain, List.isEmpty_nil, if_true] at h
+  injection h with h
+  injection h with h
+  subst h
+  exact ⟨rfl, fun _ => rfl⟩
+
 end DimModel
